@@ -7,6 +7,14 @@ from pygopherd.handlers.base import VFS_Real
 from pygopherd.handlers.virtual import Virtual
 
 
+class PYGLoader(SourceFileLoader):
+    """Loads a .pyg file without leaving byte code behind: a __pycache__
+    directory next to the document would become part of the served tree."""
+
+    def set_data(self, path, data, *, _mode=0o666):
+        pass
+
+
 class PYGHandler(Virtual):
     def canhandlerequest(self) -> bool:
         if type(self.vfs) is not VFS_Real:
@@ -23,7 +31,7 @@ class PYGHandler(Virtual):
             return False
 
         fspath = self.getfspath()
-        loader = SourceFileLoader("PYGHandler", fspath)
+        loader = PYGLoader("PYGHandler", fspath)
         spec = importlib.util.spec_from_file_location("PYGHandler", fspath, loader=loader)
         if spec is None:
             return False
